@@ -137,7 +137,10 @@ func gen(r *harn.Rng, tier string) interface{} {
 		if !r.Bool(lossP) {
 			delay := 0
 			if r.Bool(delayP) {
-				delay = r.Pick(1, 2, 3, int(w)/2+1, int(w), int(w)+1, 2*int(w)+2)
+				delay = r.Pick(1, 2, 3, int(w)/2+1, int(w)-2, int(w)-1, int(w), int(w)+1, 2*int(w)+2)
+				if delay < 1 {
+					delay = 1
+				}
 			}
 			add(i+delay, cur, "sent")
 			if r.Bool(dupP) {
@@ -242,7 +245,9 @@ func (m *model) classify(seq uint64) (newer bool, behind uint64, cyc int64, boun
 	}
 	// boundary: the numbers nearest to half the space ahead are unconstrained
 	if M%2 == 0 {
-		if a == M/2-1 || a == M/2 || a == M/2+1 {
+		// exactly half the space ahead is ambiguous, and so is (historically) the number just
+		// below it; M/2+1 ahead is M/2-1 behind, i.e. clearly behind, and stays constrained
+		if a == M/2-1 || a == M/2 {
 			boundary = true
 		}
 	} else if a == (M-1)/2 || a == (M+1)/2 {
